@@ -46,8 +46,8 @@ Verdict invariants(const RSForm& f, const std::set<EntityUID>& erased, const std
   return pbt::pass();
 }
 
-Verdict historyProp(Ctx& c) {
-  GenOpts o; o.tracking = true; o.merges = true; o.maxOps = 16;
+Verdict runHistory(Ctx& c, bool loads) {
+  GenOpts o; o.tracking = true; o.merges = true; o.maxOps = 16; o.loads = loads;
   const uint64_t idSeed = static_cast<uint64_t>(c.pick(1, 1000000));
   const auto ops = genHistory(c, o);
   for (size_t i = 0; i < ops.size(); ++i) c.show << (i ? "; " : "") << showOp(ops[i]);
@@ -85,10 +85,14 @@ Verdict historyProp(Ctx& c) {
   return pbt::pass();
 }
 
+Verdict historyProp(Ctx& c) { return runHistory(c, false); }
+Verdict loadHistoryProp(Ctx& c) { return runHistory(c, true); }
+
 }  // namespace
 
 int main(int argc, char** argv) {
   std::vector<pbt::Prop> props;
   props.push_back({"history", historyProp, 2500, 30000, false, false, "random editing histories; invariants after every operation"});
+  props.push_back({"load_history", loadHistoryProp, 800, 10000, false, false, "the same histories with RSForm::Load (+UpdateState) of colliding / ill-formed records among the operations"});
   return pbt::main(argc, argv, "C09", props);
 }
